@@ -50,6 +50,9 @@ type Contract struct {
 	ResultNames []string
 
 	PreHook  func(e *FuncEnc, args []string) []NamedFormula
+	// ArgHook: call-site obligations that depend on the shape of the argument
+	// expressions (checked at every call, not assumed in the body)
+	ArgHook func(e *FuncEnc, argVals []ssa.Value, args []string) []NamedFormula
 	PostHook func(e *FuncEnc, args, results []string, pre, post *state) []NamedFormula
 	// RetHook produces extra ensures obligations at each return of the function itself.
 	RetHook func(e *FuncEnc, results []string) []NamedFormula
